@@ -4,6 +4,7 @@ Every case is run under DISABLE / FIRST / ALL on the library and on the model, p
 library's three modes with each other.
 """
 import random
+import re
 
 import lib
 import loadgen as lg
@@ -112,6 +113,12 @@ def run(rep, tier, seed):
                            "DISABLE": outs[0], "FIRST": outs[1], "ALL": outs[2]})
     n_dump = dump_modes_oracle(rep, r, tier)
     n_model = model_load_modes_oracle(rep, r, tier) + user_exn_model_oracle(rep, r, tier)
+    seen_t, exo_types = set(), []
+    for t, _, _ in cases:
+        if repr(t) not in seen_t:
+            seen_t.add(repr(t))
+            exo_types.append(t)
+    n_model += exotic_modes_oracle(rep, r, tier, exo_types[:120 if tier == "quick" else 1500])
     header = lg.SHOW_HEADER + ("Definition run (c : nat * bool * ty * pv) : string := "
                                "match c with (m, sc, t, v) => show_res (load BOOM (md_of m) sc t v) end.\n")
     ce = CoqEval(PID, header, "run", shard=500)
@@ -355,6 +362,41 @@ def model_load_modes_oracle(rep, r, tier):
                         rep.violation(f"model-modes:{bad}:{cname}:{cls.__name__}", "property-violated",
                                       {"what": f"loading a model: {bad}", "model": cls.__name__, "name_mapping": cname, "strict_coercion": sc,
                                        "datum": repr(d), "DISABLE": repr(outs[0])[:300], "FIRST": repr(outs[1])[:300], "ALL": repr(outs[2])[:300]})
+    return n
+
+
+def exotic_modes_oracle(rep, r, tier, types):
+    """data the Gallina value type does not represent (instances of subclasses of str / int / list / dict / tuple, enum members
+    with a data mixin, views, one-shot iterables): the three modes must agree on acceptance and on the value"""
+    rts = retorts()
+    exo = lg.exotic_values()
+    n = 0
+    reported = set()
+    for t in types:
+        if "TUser" in repr(t):
+            continue
+        for sc in (True, False):
+            for name, make in exo:
+                outs = [lg.run_exotic(rts[(sc, m)], t, make) for m in MODES]
+                n += 3
+                kinds = [o[0] for o in outs]
+                bad = None
+                if "x" in kinds and len(set(kinds)) == 1:
+                    continue           # C04's subject
+                if len({k == "ok" for k in kinds}) != 1:
+                    bad = "modes disagree on acceptance"
+                elif kinds[0] == "ok":
+                    # a fresh datum is built per call: objects compared by identity differ only in their address
+                    canon = [re.sub(r"( at )?0x[0-9a-f]+", "", repr(o[1])) + "|" + type(o[1]).__name__ for o in outs]
+                    if len(set(canon)) != 1:
+                        bad = "modes return different values"
+                sig = f"exotic-modes:{bad}:{name.split(':')[0]}:{t[0]}"
+                if bad and sig not in reported and len(reported) < 8:
+                    reported.add(sig)
+                    rep.violation(sig, "property-violated",
+                                  {"what": f"{bad} for a datum outside the model's value type", "type": t, "py_type": repr(lg.py_ty(t)),
+                                   "strict_coercion": sc, "datum": name, "datum_repr": repr(make())[:120],
+                                   "DISABLE": repr(outs[0])[:200], "FIRST": repr(outs[1])[:200], "ALL": repr(outs[2])[:200]})
     return n
 
 
